@@ -813,6 +813,47 @@ pub fn c31_from_degree_sound() {
   kani::cover!(Sat::from_degree(&text).is_ok(), "some degree is accepted");
 }
 
+#[cfg(kani)]
+fn degree_text_no_third(_c: u32, _e: u32, _p: u32) -> String {
+  String::from("1°2′3″")
+}
+#[cfg(not(kani))]
+fn degree_text_no_third(c: u32, e: u32, p: u32) -> String {
+  format!("{c}°{e}′{p}″")
+}
+
+/// the abbreviated degree `C°E′P″` (no block offset: the first sat of the block): the same contract
+/// with offset 0 - in particular a height whose subsidy is zero (6 930 000 and beyond) denotes no sat
+/// and must be rejected.  (Second grammar shape of the notation; added after sub-agent seed C31-1,
+/// which skipped the subsidy test exactly when the third component is absent.)
+//# props: C31, C30
+//# kind: complete (every value of the three parsed components: u32 x u32 x u32; text shape `C°E′P″`)
+//# fns: Sat::from_degree
+//# assume: std integer parsing is under contract: u32::from_str_radix may return any value (stub); the text structure is exercised on one concrete string of this shape
+//# assume: Height::starting_sat / Height::subsidy are under their C29 contract (memoised stub height_contract)
+//# timeout: 600
+#[cfg_attr(kani, kani::proof)]
+#[cfg_attr(kani, kani::unwind(36))]
+#[cfg_attr(kani, kani::stub(u32::from_str_radix, stub_u32_from_str_radix))]
+#[cfg_attr(kani, kani::stub(u64::from_str_radix, stub_u64_from_str_radix))]
+#[cfg_attr(kani, kani::stub(Height::starting_sat, contract_starting_sat))]
+#[cfg_attr(kani, kani::stub(Height::subsidy, contract_subsidy))]
+pub fn c31_from_degree_sound_no_third() {
+  let c: u32 = kani::any();
+  let e: u32 = kani::any();
+  let p: u32 = kani::any();
+  set_parsed(c, e, p, 0);
+  let text = degree_text_no_third(c, e, p);
+  if let Ok(s) = Sat::from_degree(&text) {
+    let h = decided_height(s);
+    let (start, sub) = height_contract(h);
+    assert!(0 < sub, "C31.from_degree.abbreviated_form_needs_a_block_with_a_subsidy");
+    assert!(s.0 == start && s.0 < spec::SUPPLY, "C31.from_degree.abbreviated_form_is_first_sat_of_the_height");
+    assert!(h % 210_000 == e && h % 2016 == p && h / 1_260_000 == c, "C31.from_degree.accepted_height_has_the_parsed_components");
+  }
+  kani::cover!(Sat::from_degree(&text).is_ok(), "some abbreviated degree is accepted");
+}
+
 /// every sat's printed degree parses back to that sat.  By C29 (proved) a sat below the supply is
 /// first_sat(h) + o for exactly one (h, o) with o < subsidy(h), and its degree is
 /// (h / 1 260 000, h % 210 000, h % 2016, o); so the statement is: for every such (h, o) the parser
